@@ -16,7 +16,7 @@ def table(path, cols):
 
 res = table(f'{V}/RESULTS.md', 6)
 first = {}
-for f in ('ROUND3_FIRST_PASS.md', 'ROUND4_FIRST_PASS.md', 'ROUND5_FIRST_PASS.md', 'ROUND6_FIRST_PASS.md'):
+for f in ('ROUND3_FIRST_PASS.md', 'ROUND4_FIRST_PASS.md', 'ROUND5_FIRST_PASS.md', 'ROUND6_FIRST_PASS.md', 'ROUND7_FIRST_PASS.md'):
     for k, c in table(f'{V}/{f}', 3).items():
         first[k] = 'SURVIVED' if 'SURVIVED' in c else 'killed'
 NOT_INDEPENDENT = {'C10_5', 'C10_6'}
@@ -35,12 +35,12 @@ for d in sorted(os.listdir(V)):
         c = res[d]
         by = c[5].split('/')
         m['checked_with'] = {
-            'command': 'VERIF_SEED=<0,1,2> ./check <owning property> quick (both build profiles; patch applied to /repo with git apply, reverted afterwards)',
+            'command': 'VERIF_SEED=<0,1,2> ./check <owning property> quick (both build profiles; patch applied with git apply to /repo, or for rounds run through tools/par_seeded.py to a clone of /repo HEAD that a copy of /verif builds against, reverted afterwards)',
             'result': c[4], 'killed_by_and_seed': c[5], 'seconds_incl_rebuild': c[6], 'first_detail': c[7][:160],
         }
     if d in first:
         m['history'] = ('detected by the owning check as it stood when the change arrived' if first[d] == 'killed'
-                        else 'missed by the checks as they stood when the change arrived; detected after the generator / oracle widening described in DESIGN.md (appendix %s)' % {'5': 'C', '6': 'C', '7': 'D', '8': 'D', '9': 'E', '10': 'E'}.get(d.split('_')[1], 'F'))
+                        else 'missed by the checks as they stood when the change arrived; detected after the generator / oracle widening described in DESIGN.md (appendix %s)' % {'5': 'C', '6': 'C', '7': 'D', '8': 'D', '9': 'E', '10': 'E', '11': 'F', '12': 'F'}.get(d.split('_')[1], 'G'))
     if d in NOT_INDEPENDENT:
         m['independence'] = 'the sub-agent that wrote this change reported having read /verif/harness/src/c10.rs: NOT independent of the check'
     json.dump(m, open(mp, 'w'), indent=1)
